@@ -18,7 +18,7 @@ RULE = ('Programs (free grammar, groups weighted up, nesting in sequences/subtes
         'body following the group and before the first plug tearDown; (2) a terminal setup phase -> no main/teardown body of '
         'that group; (3) a terminal teardown phase -> no node following the group, or following any enclosing sequence/branch/subtest/group up to an enclosing teardown, runs.  '
         'Non-trivial = an entered group whose main ended abnormally (terminal or FAIL_SUBTEST record inside main, or terminal '
-        'teardown node); distinct by canonical AST.')
+        'teardown node); distinct by canonical AST.  Timeout clause: groups whose setup / main / teardown phase runs into its timeout (bodies that die when killed, that cannot be killed, that end late; virtual time, C12 engine): the executor does not hang, the group teardown and plug tearDown run.')
 ASSUMPTIONS = [
     'Whether the enclosing subtest had failed at group entry is taken from the reference interpreter and only used to *skip* groups (precondition), never to demand behaviour.',
     'Groups located inside a teardown while inside a subtest are skipped (docs ambiguous).',
@@ -235,7 +235,29 @@ def plan(tier, seed):
   for via in ('thread', 'signal'):    # the same Test object has been executed before (abort during its second run)
     jobs.append({'kind': 'abort-sweep', 'name': 'abort.rerun.group.%s' % via, 'template': 'group', 'via': via, 'rerun': True,
                  'stride': 3 if tier == 'quick' else 1, 'offset': seed % 3 if tier == 'quick' else 0})
+  # "... no matter how main ended: ... timeout": a group whose setup / main / teardown phase runs into its timeout, with bodies
+  # that die when killed, that cannot be killed, or that end just after the deadline (engine and grid of C12's timeout
+  # domain, virtual time; only the teardown clauses are attributed to C03)
+  jobs.append({'kind': 'timeout-teardown', 'name': 'timeout-teardown'})
   return jobs
+
+
+TIMEOUT_SIGS = ('C12/timeout/hang', 'C12/timeout/group-teardown-skipped', 'C12/timeout/plug-teardown-skipped')
+
+
+def timeout_teardown_cases():
+  from vf.props import c12  # pylint: disable=g-import-not-at-top
+  for case in c12.timeout_grid():
+    if case['pos'] in ('main', 'setup', 'teardown') and case['kind'] in ('killable', 'unkillable', 'returns') and not case.get('sof') \
+        and case.get('flag') is None and case['t'] in (0.5, 3.0) and case['d'] != 0.0:
+      yield case
+
+
+def check_timeout_teardown(case):
+  from vf.props import c12  # pylint: disable=g-import-not-at-top
+  c12.setup_lines()
+  r, _ = c12.check_timeout(case)
+  return r, [(sig.replace('C12/timeout/', 'C03/timeout/'), d) for sig, d in r.violations if sig in TIMEOUT_SIGS]
 
 
 ABORT_TEMPLATES = ['group', 'nested', 'subtest', 'two-groups', 'swallow', 'slow-exit']
@@ -268,6 +290,15 @@ def run_job(job, acct):
           (acct.known if sig3 in known else acct.violation)(sig3, {'abort_sweep': case}, detail)
     if job['stride'] == 1:
       acct.exhaustive_parts.append('%s via %s: one abort at every one of %d yield points' % (job['template'], job['via'], s0.k))
+  elif job['kind'] == 'timeout-teardown':
+    n = 0
+    for case in timeout_teardown_cases():
+      r, vs = check_timeout_teardown(case)
+      n += 1
+      acct.case({'timeout_teardown': case}, r.nontrivial, ['timeout-teardown', 'pos:' + case['pos'], 'kind:' + case['kind']])
+      for sig3, detail in vs:
+        (acct.known if sig3 in known else acct.violation)(sig3, {'timeout_teardown': case}, detail)
+    acct.exhaustive_parts.append('group with a phase running into its timeout: %d cases of {setup, main, teardown} x {killable, unkillable, returns late} x timeout x duration' % n)
   elif job['kind'] == 'hyp':
     strat = progs.programs(strict=False, with_test_start=False, cfg=CFG).map(with_plug)
     hyp.search(acct, strat, check, seed=job['hseed'], max_examples=job['n'], known=known)
@@ -300,6 +331,8 @@ def run_job(job, acct):
 
 
 def replay(case):
+  if 'timeout_teardown' in case:
+    return check_timeout_teardown(case['timeout_teardown'])[1]
   if 'abort_sweep' in case:
     from vf.props import c04  # pylint: disable=g-import-not-at-top
     c04.setup_lines()
